@@ -108,12 +108,15 @@ EXPORT errno_t _strchr_s_chk(const char *restrict dest, rsize_t dmax,
 #if defined(__GNUC__) && (((__GNUC__ * 100) + __GNUC_MINOR__) == 404)
     *resultp = (char *)__builtin_strchr((const char *)dest, ch);
 #else
-    *resultp = (char *)strchr((const char *)dest, ch);
+    {   /* search the string only within dmax (the terminator included, as strchr does) */
+        rsize_t len = strnlen_s(dest, dmax);
+        *resultp = (char *)memchr((const void *)dest, ch, len < dmax ? len + 1 : len);
+    }
 #endif
 
     if (!*resultp)
         return (ESNOTFND);
-    else if ((long)(*resultp - dest) > (long)dmax) {
+    else if ((long)(*resultp - dest) >= (long)dmax) {
         *resultp = NULL;
         return (ESNOTFND);
     }
